@@ -1,6 +1,11 @@
 import Mathlib.Tactic
 import Sentinel.Lemmas.PipelineCb
 import Sentinel.Lemmas.PipelineCouple
+import Sentinel.Lemmas.PipelineFlowHist
+import Sentinel.Lemmas.PipelineHotHist
+import Sentinel.Lemmas.PipelineSysHist
+import Sentinel.Props.C02
+import Sentinel.Props.C06
 import Sentinel.Props.C01
 import Sentinel.Props.C04
 import Sentinel.Props.C07
@@ -17,9 +22,12 @@ Reading guide.  `verdict A s q k` = the verdict of slot `k` for request `q`: mod
 statistic slots).  `R` = carrier of the `float64` values of the system slot (any type with a decidable `<`).
 
 1. `builtin_order`, `decision_is_first_block`
-2. `iso_projection`, `cb_projection`, `hot_projection`, `flow_projection_immediate`, `sys_verdict_is_spec`
-   and the corollaries `iso_cap_integrated`, `open_rejects_until_integrated`
-3. `ent_is_entry_run`, `pass_plus_block_integrated`, `gauge_is_live_integrated`, `window_is_ledger_integrated`
+2. projections — history form: `iso_projection`, `flow_projection_hist`, `hot_projection_hist`, `sys_projection_hist`;
+   step form: `cb_projection`, `hot_projection`, `flow_projection_immediate`, `sys_verdict_is_spec`;
+   transfers: `iso_cap_integrated` (C04), `open_rejects_until_integrated` (C03), `flow_window_counts_only_fully_passed`,
+   `admit_iff_integrated`, `window_cap_integrated` (C02), `cell_eq_live_integrated` (C06), `sys_blocked_iff_integrated` (C07)
+3. `ent_is_entry_run`, `pass_plus_block_integrated`, `gauge_is_live_integrated`, `window_is_ledger_integrated` (C01);
+   shared state: `iso_gauge_coupled`, `flow_nodes_coupled`, `reqs_are_live_contexts`
 -/
 set_option linter.unusedSectionVars false
 
@@ -471,22 +479,226 @@ theorem iso_verdict_reads_node (A : System.Arith R) (l0 c0 : R) (os : List (Pipe
 
 end Sentinel.INT
 
+/-! ## 3c. the flow component's copy of the resource nodes -/
+
 namespace Sentinel.INT
 open Sentinel.Pipe
 
-/-- the pass counters of a node array, as the flow model keeps them -/
-def passArr (a : Sentinel.LA.Arr Sentinel.LA.Bucket) : Sentinel.LA.Arr Nat :=
-  { n := a.n, L := a.L, slots := a.slots.map fun s => { start := s.start, val := s.val.pass } }
+variable {R : Type} [LT R] [∀ a b : R, Decidable (a < b)]
 
-/-- **Not proved** (full statement; validated on every correspondence run, where the flow decisions come from the copy and the
-    `stat` reads from `ent`): the flow component's private copy of the resource nodes' pass counters is the pass projection of
-    the shared nodes.  (Needs: `rname` injective, the leap-array step commutes with the projection, `reqs` = the live admitted
-    contexts of `ent`.) -/
-def flow_nodes_coupled_statement : Prop :=
-  ∀ (R : Type) [LT R] [∀ a b : R, Decidable (a < b)] (A : System.Arith R) (l0 c0 : R) (os : List (Pipe.Op R)),
-    (run A (fresh l0 c0) os).1.started = true →
-    ∀ k : Nat, FlowReject.lookup (run A (fresh l0 c0) os).1.flow.nodes k =
-      (Entry.findN (run A (fresh l0 c0) os).1.ent.nodes (rname k)).map fun n => passArr n.arr
+theorem sync_fresh (l0 c0 : R) : Sync (fresh l0 c0) :=
+  ⟨⟨fun q hq => by simp [fresh] at hq, fun id _ c hc => by simp [fresh, Entry.init, Entry.findE] at hc, fun _ _ => rfl,
+    fun _ _ => rfl, fun q hq => by simp [fresh] at hq, fun _ => rfl⟩,
+   fun k => rfl, fun _ => rfl⟩
+
+/-- **flow_nodes_coupled**: after every integrated history the flow component's private node map — the pass counters the
+    reused-view flow rules read — is the pass projection (`passNode`: same buckets, pass counter only) of the **shared**
+    resource nodes maintained by `stat.Slot`, for every resource (absent there iff absent here).  Together with
+    `window_is_ledger_integrated` this says what those counters contain. -/
+theorem flow_nodes_coupled (A : System.Arith R) (l0 c0 : R) (os : List (Pipe.Op R)) (k : Nat) :
+    FlowReject.lookup (run A (fresh l0 c0) os).1.flow.nodes k =
+      (Entry.findN (run A (fresh l0 c0) os).1.ent.nodes (rname k)).map passNode :=
+  (sync_run A _ os (sync_fresh l0 c0)).nodes k
+
+/-- the admitted-and-not-exited requests are exactly the live contexts of the shared statistic state -/
+theorem reqs_are_live_contexts (A : System.Arith R) (l0 c0 : R) (os : List (Pipe.Op R)) :
+    CtxSync (run A (fresh l0 c0) os).1 := (sync_run A _ os (sync_fresh l0 c0)).ctx
+
+end Sentinel.INT
+
+/-! ## 2b. history-form projections onto the flow, hotspot and system modules, and the transfers they give -/
+
+namespace Sentinel.INT
+open Sentinel.Pipe
+
+variable {R : Type} [LT R] [∀ a b : R, Decidable (a < b)]
+
+/-! ### flow -/
+
+/-- **flow_projection_hist.**  Flow rules loaded once (`s0.flow = FlowReject.load rules now`), then any integrated history
+    without another flow load.  Project it onto the flow module: `flowHist` = the requests that reach the flow slot **with their
+    final outcome**, i.e. those finally admitted by the whole chain and those blocked by the flow slot (a request blocked by
+    the system slot never reaches it; one that passes it and is blocked by a later slot is *not* an admitted arrival).  Then
+    * the flow model's reference run on that arrival list answers exactly what the integrated chain answered
+      (`flowHistOuts`: `none` for the admitted ones, `some i` = the blocking rule), and its admitted history is `passedHist`,
+      the requests that passed **all** slots;
+    * so does the flow model itself (`FlowReject.runEntries`, C02 `run_eq_ref_asis`);
+    * the flow component of the integrated state satisfies C02's representation invariant for that history. -/
+theorem flow_projection_hist (A : System.Arith R) (s0 : St R) (rules : List FlowReject.Rule) (os : List (Pipe.Op R))
+    (h0 : s0.flow = FlowReject.load rules s0.now) (hpos : 0 < s0.now) (hst : s0.started = true)
+    (hno : ∀ rs, Pipe.Op.loadFlow rs ∉ os) :
+    FlowReject.refRun FlowReject.RuleInfo.feed (FlowReject.compile rules) [] (flowHist A s0 os)
+      = (passedHist A s0 os, flowHistOuts A s0 os) ∧
+    (FlowReject.runEntries (FlowReject.load rules s0.now) (flowHist A s0 os)).2 = flowHistOuts A s0 os ∧
+    FlowReject.Rep (FlowReject.compile rules) (run A s0 os).1.flow (passedHist A s0 os) (run A s0 os).1.now ∧
+    FlowReject.MonoA s0.now (flowHist A s0 os) := by
+  have rep0 : FlowReject.Rep (FlowReject.compile rules) s0.flow [] s0.now := by
+    rw [h0]; exact FlowReject.load_rep rules s0.now hpos
+  obtain ⟨r1, r2, r3, _, _⟩ := run_flow A s0 os rep0 hpos hst hno
+  simp only [List.nil_append] at r1 r2
+  refine ⟨r2, ?_, r1, r3⟩
+  rw [Sentinel.C02.run_eq_ref_asis rules s0.now hpos _ r3, r2]
+
+/-- **flow_window_counts_only_fully_passed** — the cross-module fact.  At any moment of any integrated history, the verdict of
+    the flow slot on a request is the flow reference's decision over the windows of the history `passedHist` = **the requests
+    that passed ALL slots**: a pass is recorded (by `stat.Slot` on the node, by the standalone slot on the independent
+    windows) only for a request that no later slot — isolation, hotspot, circuit breaker — blocked.  A request that the
+    flow rule had room for but that a later slot rejected consumes nothing of the flow window; nor does a blocked one. -/
+theorem flow_window_counts_only_fully_passed (A : System.Arith R) (s0 : St R) (rules : List FlowReject.Rule)
+    (os : List (Pipe.Op R)) (h0 : s0.flow = FlowReject.load rules s0.now) (hpos : 0 < s0.now) (hst : s0.started = true)
+    (hno : ∀ rs, Pipe.Op.loadFlow rs ∉ os) (q : Req) :
+    verdict A (run A s0 os).1 q .flow =
+      (FlowReject.refCheck FlowReject.RuleInfo.feed (FlowReject.compile rules) (passedHist A s0 os) q.res
+        (run A s0 os).1.now q.batch).map Blk.flow := by
+  have rep0 : FlowReject.Rep (FlowReject.compile rules) s0.flow [] s0.now := by
+    rw [h0]; exact FlowReject.load_rep rules s0.now hpos
+  obtain ⟨r1, _, _, r4, _⟩ := run_flow A s0 os rep0 hpos hst hno
+  simp only [List.nil_append] at r1
+  exact flow_verdict_ref A _ q r1 r4
+
+/-- **admit_iff on the integrated chain** (C02 `admit_iff_pointwise` transferred): a request that reaches the flow slot is
+    passed by it **iff** every flow rule in force on its resource has room for the batch in its aligned window, where the
+    window content is the tokens of the requests that passed all slots (each rule counting the resource the code wires it
+    to, `RuleInfo.feed`; = the resource the property names whenever no rule lies in C02's known-finding region,
+    `admit_iff_integrated_demanded`). -/
+theorem admit_iff_integrated (A : System.Arith R) (s0 : St R) (rules : List FlowReject.Rule)
+    (os : List (Pipe.Op R)) (h0 : s0.flow = FlowReject.load rules s0.now) (hpos : 0 < s0.now) (hst : s0.started = true)
+    (hno : ∀ rs, Pipe.Op.loadFlow rs ∉ os) (q : Req) :
+    verdict A (run A s0 os).1 q .flow = none ↔
+      ∀ c ∈ FlowReject.compile rules, c.rule.res = q.res →
+        c.rule.thr.exceeds (FlowReject.windowTokens (passedHist A s0 os) c.feed c.L c.Iv (run A s0 os).1.now + q.batch) = false := by
+  rw [flow_window_counts_only_fully_passed A s0 rules os h0 hpos hst hno q, Option.map_eq_none_iff,
+    FlowReject.refCheck_none_iff]
+
+theorem admit_iff_integrated_demanded (A : System.Arith R) (s0 : St R) (rules : List FlowReject.Rule)
+    (hreg : ∀ c ∈ FlowReject.compile rules, c.inFinding = false)
+    (os : List (Pipe.Op R)) (h0 : s0.flow = FlowReject.load rules s0.now) (hpos : 0 < s0.now) (hst : s0.started = true)
+    (hno : ∀ rs, Pipe.Op.loadFlow rs ∉ os) (q : Req) :
+    verdict A (run A s0 os).1 q .flow = none ↔
+      ∀ c ∈ FlowReject.compile rules, c.rule.res = q.res →
+        c.rule.thr.exceeds (FlowReject.windowTokens (passedHist A s0 os) c.rule.src c.L c.Iv (run A s0 os).1.now + q.batch) = false := by
+  rw [admit_iff_integrated A s0 rules os h0 hpos hst hno q]
+  constructor <;> intro h c hc hr <;> have := h c hc hr <;> have hf := hreg c hc <;>
+    simp only [FlowReject.RuleInfo.inFinding, ne_eq, decide_eq_false_iff_not, not_not] at hf <;>
+    first | (rw [← hf]; exact this) | (rw [hf]; exact this)
+
+/-- **window cap on the integrated chain** (C02 `window_cap` transferred): for every flow rule that counts its own resource
+    and every window position of its geometry, the tokens of the requests admitted by the whole chain never exceed the
+    threshold — whatever the other slots did in between. -/
+theorem window_cap_integrated (A : System.Arith R) (s0 : St R) (rules : List FlowReject.Rule)
+    (os : List (Pipe.Op R)) (h0 : s0.flow = FlowReject.load rules s0.now) (hpos : 0 < s0.now) (hst : s0.started = true)
+    (hno : ∀ rs, Pipe.Op.loadFlow rs ∉ os)
+    (c : FlowReject.RuleInfo) (hc : c ∈ FlowReject.compile rules) (hown : c.feed = c.rule.res) (e : Nat) :
+    c.rule.thr.exceeds (Sentinel.LA.refW c.L (FlowReject.histOf (passedHist A s0 os) c.rule.res) (e + c.L - c.Iv) e) = false := by
+  obtain ⟨r2, _, _, r3⟩ := flow_projection_hist A s0 rules os h0 hpos hst hno
+  have := Sentinel.C02.window_cap rules s0.now (flowHist A s0 os) r3 c hc hown e
+  rw [r2] at this
+  exact this
+
+/-- the start state of the flow theorems is reachable: `clock t`, `load flow rules` on a fresh case -/
+theorem flow_start_reachable (A : System.Arith R) (l0 c0 : R) (t : Nat) (ht : 0 < t) (rules : List FlowReject.Rule) :
+    (run A (fresh l0 c0) [.clock t, .loadFlow rules]).1.flow = FlowReject.load rules t ∧
+    (run A (fresh l0 c0) [.clock t, .loadFlow rules]).1.now = t ∧
+    (run A (fresh l0 c0) [.clock t, .loadFlow rules]).1.started = true := by
+  have h0 : t ≠ 0 := by omega
+  simp only [run, step, fresh, h0, if_false, Bool.not_false, if_true, Bool.not_true, Bool.false_or, Bool.false_eq_true]
+  obtain ⟨a, b, _⟩ := ghostNodes_frame2 rules
+    ({ started := true, now := t, t0 := t, ent := Entry.init t, eh := [], load := l0, cpu := c0, cb := { now := t } } : St R)
+  refine ⟨rfl, ?_, ?_⟩
+  · simpa [loadFlow] using a
+  · simpa [loadFlow] using b
+
+/-! ### hotspot -/
+
+/-- **hot_projection_hist.**  Hotspot rules loaded before the traffic (`HotRel` to `HotConc.init rules`), then any integrated
+    history without another hotspot load.  Its projection `hotHist` — a request finally admitted or blocked by the hotspot
+    slot is `HotConc.Op.entry`, one that passes the hotspot check and is blocked by a breaker is a `HotConc.Op.check` that never
+    commits, an `Exit` is `HotConc.Op.exit`, requests blocked before the hotspot slot do not appear — is a history of the hotspot
+    model whose state has the same cells and the same live entries as the hotspot component of the integrated state. -/
+theorem hot_projection_hist (A : System.Arith R) (s0 : St R) (rules : List HotConc.Rule) (os : List (Pipe.Op R))
+    (h0 : s0.hot = HotConc.init rules) (hno : ∀ rs, Pipe.Op.loadHot rs ∉ os) :
+    (run A s0 os).1.hot.tcs = (HotConc.run (HotConc.init rules) (hotHist A s0 os)).tcs ∧
+    (run A s0 os).1.hot.live = (HotConc.run (HotConc.init rules) (hotHist A s0 os)).live := by
+  have r0 : HotRel s0.used s0.hot (HotConc.init rules) := by
+    rw [h0]
+    exact ⟨rfl, rfl, rfl, rfl, fun e he => by simp [HotConc.init, HotConc.load] at he,
+           fun p hp => by simp [HotConc.init, HotConc.load] at hp⟩
+  have := run_hot A s0 os _ r0 hno
+  exact ⟨this.tcs, this.live⟩
+
+/-- **cell_eq_live on the integrated chain** (C06 `cell_eq_live` transferred): after any integrated history, for every hotspot
+    controller that has not evicted and every value, the cell equals the number of live entries — admitted by the **whole
+    chain** and not yet exited — that the rule counts under that value.  Requests blocked by the system, flow or isolation slot
+    never touch a cell; requests blocked by a breaker touch but do not count. -/
+theorem cell_eq_live_integrated (A : System.Arith R) (s0 : St R) (rules : List HotConc.Rule) (os : List (Pipe.Op R))
+    (h0 : s0.hot = HotConc.init rules) (hno : ∀ rs, Pipe.Op.loadHot rs ∉ os) :
+    ∀ t ∈ (run A s0 os).1.hot.tcs, t.ev = false → ∀ v, v ≠ HotConc.Val.nil →
+      HotConc.cellOf t.cache v = (HotConc.liveOf t.rule v (run A s0 os).1.hot.live : Int) := by
+  obtain ⟨h1, h2⟩ := hot_projection_hist A s0 rules os h0 hno
+  rw [h1, h2]
+  exact Sentinel.C06.cell_eq_live rules (hotHist A s0 os)
+
+/-- the start state of the hotspot theorems is reachable: `clock t`, `load hot rules` on a fresh case -/
+theorem hot_start_reachable (A : System.Arith R) (l0 c0 : R) (t : Nat) (ht : 0 < t) (rules : List HotConc.Rule) :
+    (run A (fresh l0 c0) [.clock t, .loadHot rules]).1.hot = HotConc.init rules := by
+  have h0 : t ≠ 0 := by omega
+  simp [run, step, fresh, h0, HotConc.init]
+
+end Sentinel.INT
+
+namespace Sentinel.INT
+open Sentinel.Pipe
+
+/-! ### system -/
+
+section sys
+variable {R : Type} [LT R] [LE R] [∀ a b : R, Decidable (a < b)] [∀ a b : R, Decidable (a ≤ b)]
+
+/-- **sys_projection_hist.**  After any integrated history from a fresh case, everything the system slot reads — loaded rules,
+    load / cpu readings, the inbound node's leap array and gauge (shared with `stat.Slot`) — is what the system model holds
+    after replaying the projected history `sysHist` with **its own transition functions** (`sysApply`): `System.step` for
+    clock / load / readings, `onPassed` / `onBlocked` / `onExit` for the entries with their final outcome (what `System.step`
+    does on `.entry` / `.exit`: `sysApply_entry_is_step`, `sysApply_exit_is_step`), plus the block count of inbound requests
+    blocked by a *later* slot and the error count of inbound completions — two counters the system view never reads.
+    Hence the system slot's verdict on the integrated chain is the system model's verdict in that state. -/
+theorem sys_projection_hist (A : System.Arith R) (l0 c0 : R) (os : List (Pipe.Op R)) :
+    SysRel (run A (fresh l0 c0) os).1 (sysRun A { load := l0, cpu := c0 } (sysHist A (fresh l0 c0) os)) ∧
+    ((run A (fresh l0 c0) os).1.started = true → ∀ q : Req,
+      (verdict A (run A (fresh l0 c0) os).1 q .sys).isSome =
+        System.blockedBy A false (sysRun A { load := l0, cpu := c0 } (sysHist A (fresh l0 c0) os)) q.inbound) := by
+  have r0 : SysRel (fresh l0 c0) ({ load := l0, cpu := c0 } : System.St R) :=
+    ⟨rfl, rfl, rfl, rfl, rfl, rfl, fun h => by simp [fresh] at h, fun _ => rfl⟩
+  have r := run_sys A (fresh l0 c0) os _ r0 (sync_fresh l0 c0)
+  exact ⟨r, fun hst q => sys_verdict_rel A _ _ r hst q⟩
+
+end sys
+
+/-- **blocked_iff_exists_violated on the integrated chain** (C07 transferred; `R` a linear order): a request is rejected by the
+    system slot — which, being the first slot, means `api.Entry` answers a system block — **iff** it is inbound and at
+    least one loaded system rule is violated at the aggregates of the shared inbound node at that moment. -/
+theorem sys_blocked_iff_integrated {R : Type} [LinearOrder R] (A : System.Arith R) (s : St R) (q : Req) :
+    (entry A s q).2 = some Blk.sys ↔ q.inbound = true ∧ ∃ r ∈ s.sysRules, System.violated A (sysView s) r := by
+  have hdec : (entry A s q).2 = some Blk.sys ↔ (verdict A s q .sys).isSome = true := by
+    rw [entry_snd]
+    constructor
+    · intro h
+      have := decision_some A s q _ h
+      simp only [Blk.slot] at this
+      rw [this]; rfl
+    · intro h
+      obtain ⟨b, hb⟩ := Option.isSome_iff_exists.mp h
+      have hs : b = Blk.sys := by
+        simp only [verdict, Option.map_eq_some_iff] at hb
+        obtain ⟨_, _, e⟩ := hb
+        exact e.symm
+      subst hs
+      simp only [decision, firstBlock, hb]
+  rw [hdec]
+  cases hi : q.inbound
+  · simp only [verdict, Option.isSome_map, hi, Sentinel.C07.outbound_never_blocked]
+    simp
+  · simp only [verdict, Option.isSome_map, hi, true_and]
+    exact Sentinel.C07.blocked_iff_exists_violated A s.sysRules s.sysRules (List.Perm.refl _) (sysView s)
 
 end Sentinel.INT
 
